@@ -1,10 +1,17 @@
-import GoLevel.Proofs.LocksOrphanClk
-/-! `Close` leaves `db.closeW.Wait()` only when both compaction goroutines have exited (any configuration). -/
+import GoLevel.Proofs.LocksLive
+/-! `SetReadOnly` takes effect, and the persistent-error state fails fast (machine as coded).
+
+* A thread at the `select` on `writeLockC` of a write-side call (`Put`/`Delete`/`Write`: `putSel`,
+  `OpenTransaction` and the large-batch `Write`: `otxSel`, `CompactRange`: `crSel`, `SetReadOnly`: `srSel`) moves
+  only by taking one of the three arms; while the token is in `writeLockC` and the DB is open the only arm is
+  `compPerErrC`, and the call returns the machine's error (`sel_thread_step`).
+* `compReadOnly`, once set, stays set; the machine leaves `hasperr` only through its `closeC` case. -/
 namespace GoLevel.Locks
+open CompErr
 set_option linter.unusedSimpArgs false
 
-theorem ackWs_clWait (ws : List Pc) (w : Option Nat) (b : Bool) (i : Nat) (hi : ws[i]? = some .clWait) :
-    (ackWs ws w b)[i]? = some .clWait := by
+theorem ackWs_sel (ws : List Pc) (w : Option Nat) (b : Bool) (i : Nat) (p q : Pc) (hi : ws[i]? = some p)
+    (hq : selNext p = some q) : (ackWs ws w b)[i]? = some p := by
   unfold ackWs
   split
   · rename_i j
@@ -13,15 +20,17 @@ theorem ackWs_clWait (ws : List Pc) (w : Option Nat) (b : Bool) (i : Nat) (hi : 
       split
       · rw [List.getElem?_set]
         split
-        · rename_i hji; subst hji; rw [hj] at hi; cases hi
+        · rename_i hji; subst hji; rw [hj] at hi; cases hi; simp [selNext] at hq
         · exact hi
       · exact hi
     · exact hi
   · exact hi
 
-theorem clWait_step (cfg : Cfg) (s t : St) (f : Bool) (h : Step cfg f s t) (i' : Nat)
-    (hi' : s.ws[i']? = some .clWait) :
-    t.ws[i']? = some .clWait ∨ (s.mc = .exited ∧ s.tc = .exited) := by
+/-- while the token is in `writeLockC` and `closeC` is open, a thread at the first `select` of a write-side call
+stays there or returns the error it receives from `compPerErrC` -/
+theorem sel_thread_step (cfg : Cfg) (s t : St) (f : Bool) (h : Step cfg f s t) (i' : Nat) (p' q' : Pc)
+    (hi' : s.ws[i']? = some p') (hsel : selNext p' = some q') (htok : s.tok = true) (hcl : s.closed = false) :
+    t.ws[i']? = some p' ∨ t.ws[i']? = some (.retE s.ehErr) := by
   cases h with
   | startPut _ i hi =>
     (try simp only [St.setDone, St.setBg, ↓reduceIte, Bool.false_eq_true, Bool.and_false, Bool.and_true, Bool.false_and, Bool.true_and]) <;> (repeat' split) <;> (try simp only [List.getElem?_set]) <;> grind [St.setBg, St.setDone, St.bg, clearW, onOk, onErr, selNext, afterSetErr]
@@ -183,22 +192,27 @@ theorem clWait_step (cfg : Cfg) (s t : St) (f : Bool) (h : Step cfg f s t) (i' :
     (try simp only [St.setDone, St.setBg, ↓reduceIte, Bool.false_eq_true, Bool.and_false, Bool.and_true, Bool.false_and, Bool.true_and]) <;> (repeat' split) <;> (try simp only [List.getElem?_set]) <;> grind [St.setBg, St.setDone, St.bg, clearW, onOk, onErr, selNext, afterSetErr]
   | bgAck _ b w hb =>
     left
-    have := ackWs_clWait s.ws w b i' hi'
+    have := ackWs_sel s.ws w b i' p' q' hi' hsel
     cases b <;> simpa [St.setBg] using this
   | bgExit _ b w ph hb hx =>
     (try simp only [St.setDone, St.setBg, ↓reduceIte, Bool.false_eq_true, Bool.and_false, Bool.and_true, Bool.false_and, Bool.true_and]) <;> (repeat' split) <;> (try simp only [List.getElem?_set]) <;> grind [St.setBg, St.setDone, St.bg, clearW, onOk, onErr, selNext, afterSetErr]
 
-/-- with `compCommitLk` leaked and `mCompaction` blocked on it, a `Close` in `closeW.Wait()` stays there -/
-theorem clkOrphan_close_stuck (cfg : Cfg) (s t : St) (h : Steps cfg s t) (ho : ClkOrphan s) (i : Nat)
-    (hi : s.ws[i]? = some .clWait) : ClkOrphan t ∧ t.ws[i]? = some .clWait := by
-  induction h with
-  | refl => exact ⟨ho, hi⟩
-  | tail _ h2 ih =>
-    obtain ⟨ho', hi'⟩ := ih
-    refine ⟨step_clkOrphan cfg _ _ _ h2 ho', ?_⟩
-    rcases clWait_step cfg _ _ _ h2 i hi' with h | ⟨h, _⟩
-    · exact h
-    · obtain ⟨_, _, _, w, hw⟩ := ho'
-      rw [hw] at h; cases h
+/-- `compReadOnly` is never reset -/
+theorem step_ro (cfg : Cfg) (s t : St) (f : Bool) (h : Step cfg f s t) (hr : s.ro = true) : t.ro = true := by
+  cases h <;> (try simp only [St.setDone, St.setBg]) <;> (repeat' split) <;> simp_all
+
+theorem steps_ro (cfg : Cfg) (s t : St) (h : Steps cfg s t) (hr : s.ro = true) : t.ro = true :=
+  steps_inv_of_step (fun s => s.ro = true) (fun s t f h => step_ro cfg s t f h) s t h hr
+
+/-- the persistent-error state (with its error) lasts until `Close` -/
+theorem step_hasperr (cfg : Cfg) (s t : St) (f : Bool) (h : Step cfg f s t) (he : s.eh = .hasperr) :
+    (t.eh = .hasperr ∧ t.ehErr = s.ehErr) ∨ s.closed = true := by
+  cases h <;> (try simp only [St.setDone, St.setBg]) <;> (repeat' split) <;> simp_all
+
+/-- the `hasperr` loop does not give its token back before `Close`: with `compactionError` holding the token
+(`ehTok`) in `hasperr` and the DB open, the next state is the same in these respects (or `Close` has begun) -/
+theorem step_hasperr_locked (cfg : Cfg) (s t : St) (f : Bool) (h : Step cfg f s t) (he : s.eh = .hasperr)
+    (hk : s.ehTok = true) (hc : s.closed = false) : t.ehTok = true := by
+  cases h <;> (try simp only [St.setDone, St.setBg]) <;> (repeat' split) <;> simp_all
 
 end GoLevel.Locks
